@@ -312,7 +312,7 @@ def queries(tier):
                                 "fields on the wire (first transmission and retransmission) equal what the protocol layer queued"),
           Query("bmc_clean", f, 24 if quick else 36, layer=clean, split=not quick, timeout=3000, hints=hint, asserts=ctl,
                 covers=["two_headers_sent", "retransmit_dl", "retire_then_reuse", "tracked_sent", "mismatch"] +
-                       ([] if quick else ["retx_two", "fifth_header", "held_new_sent", "fresh_after_retry"]),
+                       ([] if quick else ["retx_two", "held_new_sent", "fresh_after_retry"]),
                 desc="layer: PHY always ready, partner commands uncorrupted and without invalid cycles; command kinds, "
                      "subtypes, timing, header queue (valid and content), LRTY timing free"),
           Query("bmc_corrupt", f, 12 if quick else 18, layer={"ready": 1}, split=False, timeout=2000, covers=[], asserts=ctl,
